@@ -132,6 +132,9 @@ def run(ctx, rep):
             if f.name.startswith("generate_") and "from" in f.name and "name" in f.name:
                 _check_dispatcher(ctx, rep, fo, f)
     rep.stats["eval_sites"] = n_sites
+    # ---- Y4-Y6: constant tables
+    from . import c17_tables
+    c17_tables.run(ctx, rep)
 
 
 def _check_eval(ctx, rep, fo: Folder, f: Func, ev: ast.Call, thorough: bool):
